@@ -15,7 +15,7 @@ V (code -> spec, normative scale): c16_driver calls `plan_denominations` (real Z
 `from_stored_parts`, `largest_one_two_five`, `is_canonical_denomination` at every denomination
 boundary +- deltas, note-count fee steps, MAX_MONEY and seeded random points under refusing,
 over-charging and inconsistent oracles; Trace_Denomination.tla re-evaluates the rule in DecNat
-(decimal digit sequences) on every line.  MC_TraceEquiv ties the DecNat restatement to the native
+(decimal digit sequences) on every line.  MC_DenominationEquiv ties the DecNat restatement to the native
 rule; MC_DecNat ties DecNat to native arithmetic.
 """
 import concurrent.futures
@@ -318,7 +318,7 @@ def trace_direction(ctx, d, bindir):
 # ------------------------------------------------------------------------------------------------
 
 def model_checking(ctx, d):
-    for m in ["Denomination", "MC_Denomination", "DenominationD", "Trace_Denomination", "MC_TraceEquiv", "L125",
+    for m in ["Denomination", "MC_Denomination", "DenominationD", "Trace_Denomination", "MC_DenominationEquiv", "L125",
               "DecNat", "MC_DecNat"]:
         lib.sany(os.path.join(d, m + ".tla"))
     # DecNat against native arithmetic
@@ -347,8 +347,8 @@ def model_checking(ctx, d):
     for name, c, minexp in eq:
         cfg = "MC_%s.cfg" % name
         write_cfg(os.path.join(d, cfg), c, invariant="Equiv", props=False, extra_consts="  MinExp = %d\n" % minexp)
-        # MC_TraceEquiv extends Denomination (Totals given explicitly through the wrapper constants)
-        r = lib.tlc(ctx, d, "MC_TraceEquivW", cfg, workers=8, timeout=3000)
+        # MC_DenominationEquiv extends Denomination (Totals given explicitly through the wrapper constants)
+        r = lib.tlc(ctx, d, "MC_DenominationEquivW", cfg, workers=8, timeout=3000)
         lib.require_coverage(r, ACTIONS)
         lib.account_tlc(ctx, r)
         r.out = ""
@@ -362,9 +362,9 @@ def model_checking(ctx, d):
 
 def stage(ctx):
     d = lib.stage_specs(ctx, AREA)
-    # wrapper giving MC_TraceEquiv the range/extra constants of MC_Denomination
-    with open(os.path.join(d, "MC_TraceEquivW.tla"), "w") as f:
-        f.write("---- MODULE MC_TraceEquivW ----\nEXTENDS MC_TraceEquiv\nCONSTANTS TotalLo, TotalHi, TotalExtra\n"
+    # wrapper giving MC_DenominationEquiv the range/extra constants of MC_Denomination
+    with open(os.path.join(d, "MC_DenominationEquivW.tla"), "w") as f:
+        f.write("---- MODULE MC_DenominationEquivW ----\nEXTENDS MC_DenominationEquiv\nCONSTANTS TotalLo, TotalHi, TotalExtra\n"
                 "MCTotals == (TotalLo..TotalHi) \\cup TotalExtra\n====\n")
     return d
 
